@@ -145,6 +145,29 @@ def run_case(kind, p):
     r3 = m4.weighted_optimize()
     if np.abs(r2.zero - u.zero).max() > tol or np.abs(r3.zero - r1.zero).max() > tol:
         msgs.append("optimize()/weighted_optimize() on a Match that was optimised before give different results")
+    # attributes read on a rough guess BEFORE it is optimised / derived from must not stick to the derived matches
+    g = grm.Match(m.correlation_result, selector=None, zero=m.zero + np.array([1.5, -2.0]), a=m.a * 1.03, b=m.b * 0.98,
+                  indices=idx)
+    _ = g.error, g.calculated_refineds, len(g)
+    for nm, o, ww in (("weighted_optimize", g.weighted_optimize(), w), ("optimize", g.optimize(), ones),
+                      ("derive", g.derive(zero=m.zero, a=m.a, b=m.b), w)):
+        calc = o.zero + idx @ np.array([o.a, o.b])
+        if np.abs(np.asarray(o.calculated_refineds) - calc).max() > 1e-9 * scale:
+            msgs.append(f"after reading error/calculated_refineds on a guess, guess.{nm}() reports calculated_refineds that "
+                        f"are not zero + i*a + j*b of its own lattice (max deviation "
+                        f"{np.abs(np.asarray(o.calculated_refineds) - calc).max():.4g})")
+            break
+        e_ref = (np.linalg.norm(pts - calc, axis=1) * w).sum() / w.sum()
+        if abs(o.error - e_ref) > 1e-9 * max(1.0, e_ref):
+            msgs.append(f"after reading error on a guess, guess.{nm}().error = {o.error} is not the elevation-weighted mean "
+                        f"residual {e_ref} of the lattice it reports")
+            break
+        ref_fit = m if nm != "optimize" else u
+        if np.abs(o.zero - ref_fit.zero).max() > tol or np.abs(o.a - ref_fit.a).max() > tol:
+            msgs.append(f"guess.{nm}() differs from the fit obtained directly")
+            break
+    if abs(g.error - (np.linalg.norm(pts - (g.zero + idx @ np.array([g.a, g.b])), axis=1) * w).sum() / w.sum()) > 1e-9 * scale:
+        msgs.append("error of the guess changed after deriving from it")
     return msgs[:6]
 
 
